@@ -1,4 +1,5 @@
 import FordModel.Lemmas.UseSpec
+import FordModel.Lemmas.UseAccess
 set_option linter.unusedVariables false
 namespace Ford.Use
 
@@ -521,7 +522,8 @@ def SoundSt (g : List Scope) (k : Nat) (st : State) : Prop :=
 theorem mem_declsOf (k : Nat) (m : Scope) (d : Decl) : d ∈ declsOf k m ↔ d ∈ m.decls ∧ d.kind = k := by
   simp [declsOf]
 
-theorem sound_init (g : List Scope) (k : Nat) (hu : UniqueNames g) : SoundSt g k (init k g) := by
+theorem sound_init (g : List Scope) (k : Nat) (hu : UniqueNames g) (hq : NoProtectedOverPrivate g) :
+    SoundSt g k (init k g) := by
   intro m hm
   rw [getTabs_init k g hu m hm]
   constructor
@@ -533,7 +535,7 @@ theorem sound_init (g : List Scope) (k : Nat) (hu : UniqueNames g) : SoundSt g k
       rw [List.mem_filter, mem_declsOf] at hd
       refine Exports.decl hm hmod hd.1.1 hd.1.2 ?_
       have := hd.2
-      simpa [declExported] using this
+      exact accessible_of_exported m d (hq m hm d hd.1.1) (by simpa [declExported] using this)
     · simp [hmod] at hp
   · intro p hp
     unfold cleanup at hp
@@ -602,14 +604,14 @@ theorem sound_step (g : List Scope) (k : Nat) (hu : UniqueNames g) (hb : NoBareR
       exact h m hm
 
 theorem sound_run (g : List Scope) (k : Nat) (hu : UniqueNames g) (hb : NoBareRename g)
-    (hp : NoEffectivePrivate g) (hs : NoShadow g k) (order : List Str) :
+    (hp : NoEffectivePrivate g) (hs : NoShadow g k) (hq : NoProtectedOverPrivate g) (order : List Str) :
     SoundSt g k (run k g order) := by
   unfold run
   have : ∀ st, SoundSt g k st → SoundSt g k (order.foldl (step g) st) := by
     induction order with
     | nil => intro st h; exact h
     | cons a as ih => intro st h; exact ih _ (sound_step g k hu hb hp hs st a h)
-  exact this _ (sound_init g k hu)
+  exact this _ (sound_init g k hu hq)
 
 /-! ### completeness invariant -/
 
@@ -619,7 +621,7 @@ theorem imports_inv {g : List Scope} {k : Nat} {s : Scope} {l : Str} {e : Ent} (
   | mk a b c d e f g => exact ⟨_, _, _, a, b, c, d, e, f, g⟩
 
 theorem exports_inv {g : List Scope} {k : Nat} {m : Scope} {l : Str} {e : Ent} (h : Exports g k m l e) :
-    (∃ d, m ∈ g ∧ m.isMod = true ∧ d ∈ m.decls ∧ d.kind = k ∧ declPerm m d ≠ .priv ∧ l = d.name ∧ e = (m.name, d.name)) ∨
+    (∃ d, m ∈ g ∧ m.isMod = true ∧ d ∈ m.decls ∧ d.kind = k ∧ declAccessible m d = true ∧ l = d.name ∧ e = (m.name, d.name)) ∨
     (m.isMod = true ∧ Imports g k m l e ∧ l ∉ m.privNames ∧ (m.defPub = true ∨ l ∈ m.pubNames)) := by
   cases h with
   | decl a b c d e => exact Or.inl ⟨_, a, b, c, d, e, rfl, rfl⟩
@@ -681,7 +683,7 @@ theorem usesDone_spec (g : List Scope) (done : List Str) (m : Scope) (h : usesDo
   simpa using this
 
 theorem complete_step (g : List Scope) (k : Nat) (hu : UniqueNames g) (hb : NoBareRename g)
-    (hr : NoRepeatedRemote g) (st : State) (nm : Str) (done : List Str)
+    (hr : NoRepeatedRemote g) (hl : LegalAccess g) (st : State) (nm : Str) (done : List Str)
     (hbase : BaseSt g k st) (hc : CompleteSt g k st done)
     (hnd : nm ∉ done) (hud : ∀ m, findScope g nm = some m → usesDone g done m = true) :
     CompleteSt g k (step g st nm) (nm :: done) := by
@@ -716,7 +718,8 @@ theorem complete_step (g : List Scope) (k : Nat) (hu : UniqueNames g) (hb : NoBa
       constructor
       · intro l e hex
         rcases exports_inv hex with ⟨d, _, hmod, hd, hk, hperm, rfl, _⟩ | ⟨hmod, hi, hnpriv, hpub⟩
-        · exact (hasKey_useFold_mono g st m0 m0.uses _ _).1 ((hbase m0 hm _ hd hk).2 hmod hperm)
+        · exact (hasKey_useFold_mono g st m0 m0.uses _ _).1 ((hbase m0 hm _ hd hk).2 hmod
+            (exported_of_accessible m0 d (hl m0 hm d hd) hperm))
         · obtain ⟨u', hu', n', hn', hk'⟩ := himp l e hi
           refine (hasKey_useFold g st m0 m0.uses _ l u' hu' n' hn' hk').2 hmod ?_
           unfold shouldBePublic
@@ -734,7 +737,7 @@ theorem complete_step (g : List Scope) (k : Nat) (hu : UniqueNames g) (hb : NoBa
       · exact hc m hm h
 
 theorem complete_fold (g : List Scope) (k : Nat) (hu : UniqueNames g) (hb : NoBareRename g)
-    (hr : NoRepeatedRemote g) (order : List Str) :
+    (hr : NoRepeatedRemote g) (hl : LegalAccess g) (order : List Str) :
     ∀ (st : State) (done : List Str), isTopo g done order = true → BaseSt g k st →
       CompleteSt g k st done → CompleteSt g k (order.foldl (step g) st) (order.reverse ++ done) := by
   induction order with
@@ -751,7 +754,7 @@ theorem complete_fold (g : List Scope) (k : Nat) (hu : UniqueNames g) (hb : NoBa
       intro m hf; simp [hf] at h1; exact h1.1
     have hstep : CompleteSt g k (step g st nm) (nm :: done) := by
       rcases hnd with hnd | hnone
-      · exact complete_step g k hu hb hr st nm done hbase hc hnd hud
+      · exact complete_step g k hu hb hr hl st nm done hbase hc hnd hud
       · -- no scope of this name: nothing changes, and no scope is called `nm`
         unfold step; rw [hnone]
         intro m hm hin
@@ -762,9 +765,9 @@ theorem complete_fold (g : List Scope) (k : Nat) (hu : UniqueNames g) (hb : NoBa
     simpa [List.foldl_cons, List.reverse_cons, List.append_assoc] using this
 
 theorem complete_run (g : List Scope) (k : Nat) (hu : UniqueNames g) (hb : NoBareRename g)
-    (hr : NoRepeatedRemote g) (order : List Str) (ht : isTopo g [] order = true) :
+    (hr : NoRepeatedRemote g) (hl : LegalAccess g) (order : List Str) (ht : isTopo g [] order = true) :
     CompleteSt g k (run k g order) order := by
-  have := complete_fold g k hu hb hr order (init k g) [] ht (base_init g k hu)
+  have := complete_fold g k hu hb hr hl order (init k g) [] ht (base_init g k hu)
     (fun m _ hin => by simp at hin)
   intro m hm hin
   exact this m hm (by simpa using hin)
@@ -841,6 +844,15 @@ theorem priv_run (g : List Scope) (k : Nat) (hu : UniqueNames g) (order : List S
     | nil => intro st h; exact h
     | cons a as ih => intro st h; exact ih _ (priv_step g k hu st a h)
   exact this _ (priv_init g k hu)
+
+/-- `e` is a declaration of kind `k` of a project module that the standard makes accessible -/
+def AccessibleEnt (g : List Scope) (k : Nat) (e : Ent) : Prop :=
+  ∃ n ∈ g, n.isMod = true ∧ n.name = e.1 ∧ ∃ d ∈ n.decls, d.kind = k ∧ d.name = e.2 ∧ declAccessible n d = true
+
+theorem accessibleEnt_of_pubEnt (g : List Scope) (k : Nat) (e : Ent) (hq : NoProtectedOverPrivate g)
+    (h : PubEnt g k e) : AccessibleEnt g k e := by
+  obtain ⟨n, hn, hmod, hname, d, hd, hk, hdn, hperm⟩ := h
+  exact ⟨n, hn, hmod, hname, d, hd, hk, hdn, accessible_of_exported n d (hq n hn d hd) hperm⟩
 
 /-- an identifier a module exports is not declared private there by a statement
     (unless it is one of its own declarations) -/
